@@ -93,6 +93,34 @@ def make_cases(tier):
         for j in range(nruns - 2, -1, -1):
             runs[j]["next"] = runs[j + 1]
         cases.append(runs[0])
+    # a later run against what an earlier run left in the graph: equal values are accepted, different ones conflict, whatever the
+    # mode of either run and whether or not the later run re-creates the edge first
+    v, i = A.var, A.integer
+    first = A.file([A.stanza("(module) @_m ", [A.node(v("a")), A.node(v("b")), A.edge(v("a"), v("b")), A.attrn(v("a"), A.attr("k", i(1))),
+                                               A.attre(v("a"), v("b"), A.attr("w", i(1)))])])
+    later = {
+        "node-conflict": [A.attrn(v("P0"), A.attr("k", i(2)))],
+        "node-equal": [A.attrn(v("P0"), A.attr("k", i(1)), A.attr("fresh", i(5)))],
+        "edge-conflict": [A.attre(v("P0"), v("P1"), A.attr("w", i(2)))],
+        "edge-equal": [A.attre(v("P0"), v("P1"), A.attr("w", i(1)), A.attr("fresh", i(5)))],
+        "edge-again-conflict": [A.edge(v("P0"), v("P1")), A.attre(v("P0"), v("P1"), A.attr("w", i(2)))],
+        "edge-again-equal": [A.edge(v("P0"), v("P1")), A.attre(v("P0"), v("P1"), A.attr("w", i(1)))],
+        "node-conflict-late": [A.node(v("c")), A.edge(v("c"), v("P0")), A.attrn(v("c"), A.attr("k", i(2))), A.attrn(v("P0"), A.attr("k", A.string("other")))],
+    }
+    k = 0
+    for name, stmts in later.items():
+        for m1 in ("strict", "lazy"):
+            for m2 in ("strict", "lazy"):
+                for dbg in ((A.DBG_OFF, A.DBG_ON) if tier == "thorough" or name.endswith("conflict") else (A.DBG_OFF,)):
+                    r1 = A.case("c09h-%s-%d-r1" % (name, k), json.loads(json.dumps(first)), 1, m1, dbg=dbg)
+                    prog2 = A.file([A.stanza("(module) @_m ", json.loads(json.dumps(stmts)))], globals_=[A.glob("P0"), A.glob("P1")])
+                    r2 = A.case("c09h-%s-%d-r2" % (name, k), prog2, 1, m2, globals_={"P0": A.vgn(0), "P1": A.vgn(1)}, dbg=dbg)
+                    r3 = A.case("c09h-%s-%d-r3" % (name, k), json.loads(json.dumps(prog2)), 1, m1, globals_={"P0": A.vgn(0), "P1": A.vgn(1)}, dbg=dbg)
+                    r1["next"] = r2
+                    r2["next"] = r3
+                    r1["expect_later"] = "err" if "conflict" in name else "ok"
+                    cases.append(r1)
+                    k += 1
     return cases
 
 
@@ -164,6 +192,11 @@ def judge(run):
                 break
             if cl.get("drift"):
                 V.note_drift(case["id"], cl["drift"])
+            want = rows[0].get("expect_later")
+            if want and j >= 1 and o["status"] != want and not (want == "err" and j == 2):
+                payload["detail"] = "run %d over the graph of the earlier runs: %s, the property prescribes %s (an existing attribute keeps its value; a different value is a conflict, an equal one is not)" % (j + 1, o["status"], want)
+                V.violation(case["id"] + "-later", payload, {"observed": o["status"], "later": want})
+                break
             stats["recreated_edges"] += sum(1 for e in case["events"] if e.get("e") == "edge" and not e.get("new"))
             if o["status"] != "ok":
                 if o.get("err", {}).get("kind") == "DuplicateAttribute":
